@@ -547,6 +547,22 @@ def c01_targeted(r):
         lines.append(pkt_line("recv", ftpd("transfer/channel-7/uusdc", 1000, ORB, m)))
         lines.append(pkt_line("recv", ftpd("uatom", 1000, ORB, m)))
         lines.append(pkt_line("recv", ftpd("transfer/channel-7/uusdc", 1000, ORB.upper(), m)))
+    # every encoding of the packet's own fields: the same orbiter transfer spelled in ways a counterparty that does not
+    # serialise canonically may produce (trailing bytes after the first JSON value, white space, repeated or escaped keys,
+    # escaped values, reordered fields); whatever ICS-20 accepts as a transfer to the orbiter must go through the orbiter flow
+    good = memo(int_fwd(U[1]), [fee_action([(U[2], "b", 100)])])
+    base = ftpd("transfer/channel-7/uusdc", 1000, ORB, good)
+    esc_key = base.replace("\"receiver\"", "\"\\u0072eceiver\"")
+    esc_val = base.replace("\"receiver\":\"" + ORB, "\"receiver\":\"\\u006e" + ORB[1:])
+    dup1 = base[:-1] + ",\"receiver\":\"" + U[0] + "\"}"
+    dup2 = "{\"receiver\":\"" + U[0] + "\"," + base[1:]
+    d = _json.loads(base)
+    reordered = _json.dumps({k: d[k] for k in ("memo", "receiver", "sender", "amount", "denom")}, separators=(",", ":"))
+    spaced = _json.dumps(d, indent=2)
+    for v in [base + "{}", base + "}", base + "\nnoble", base + " ", base + "\n", " " + base, "\t\n" + base + "\r\n", base + "[]", base + base, base + "null", base + "0",
+              esc_key, esc_val, dup1, dup2, reordered, spaced, base.replace(":", " : ", 2), "\ufeff" + base]:
+        lines.append("deposit %s %s %d" % (hx(ORB_BYTES), hx("uusdc"), 3))
+        lines.append(pkt_line("recv", v))
     return lines
 
 
